@@ -99,8 +99,8 @@ def build_unit(unit, canary=False, lenient=False):
     # rewrite-rule counts must equal the committed expectation (lost anchor otherwise)
     exp = CONFIG["units"][unit].get("rewrite_counts")
     if exp is not None and not canary and not lenient:
-        got = {k: v for k, v in meta["rewrite_counts"].items() if not k.startswith("sub*:")}   # optional call-site renames are not anchors
-        exp = {k: v for k, v in exp.items() if not k.startswith("sub*:")}
+        got = {k: v for k, v in meta["rewrite_counts"].items() if not k.startswith("sub*:") and k != "R7.log"}   # optional call-site renames / dropped log statements are not anchors
+        exp = {k: v for k, v in exp.items() if not k.startswith("sub*:") and k != "R7.log"}
         if got != exp:
             diff = {k: (exp.get(k), got.get(k)) for k in set(exp) | set(got) if exp.get(k) != got.get(k)}
             raise Inconclusive("rewrite-rule application counts of unit %s changed (expected,got): %s" % (unit, diff))
@@ -813,6 +813,12 @@ def main(argv):
         try:
             w = ensure_replay_bin()
             print("setup: replay binary built in %.1fs" % w)
+            try:
+                import purity as purity_mod
+                pr = purity_mod.run(WORK)
+                print("setup: purity crates checked in %.1fs (%d tool errors)" % (pr["wall_s"], len(pr["tool_errors"])))
+            except Exception as ex:   # warming only
+                print("setup: purity warm-up skipped (%s)" % ex)
             return 0
         except Inconclusive as e:
             print("setup failed: %s" % e)
